@@ -21,7 +21,7 @@ def main():
         if time.time() - t > 2:
             slow.append((case, round(time.time() - t, 1)))
     out = col.to_json()
-    print("wall", round(time.time() - t0, 2), "evals", out["evaluations"], "keys", len(out["keys"]))
+    print("wall", round(time.time() - t0, 2), "evals", out["evaluations"], "keys", len(out["keys"]) + out["distinct_extra"])
     print("counts", json.dumps(out["counts"], sort_keys=True))
     print("notes", out["notes"], "inconclusive", out["inconclusive"][:5], "slow", slow[:10])
     print("n_violations", out["n_violations"])
